@@ -236,6 +236,7 @@ def parseQOp (a : List String) : M QOp := do
   | "eqk" => return .eqKey (← natArg a 1) (← unh (← argAt a 2))
   | "cmpk" => return .cmpKey (← natArg a 1) (← unh (← argAt a 2))
   | "tgck" => return .tryGetChecksum
+  | "tit" => return .tryInsertChecksum (← unh (← argAt a 1)) (← unh (← argAt a 2))
   | "gett" => return .getTyped (← natArg a 1)
   | "hast" => return .hasTyped (← natArg a 1)
   | "inst" => return .insertTyped (← natArg a 1) (← unh (← argAt a 2))
